@@ -244,14 +244,26 @@ def finish(prop, tier, seed, level, merged, failures, rule, t0, guards=None, ass
     for sig, vs in sorted(known_seen.items()):
         lines.append(f"KNOWN-FINDING: property={prop} {sig} :: {findings[(prop, sig)]} (seen {len(vs)}x this run)")
     nrep = 0
+    bysig = {}
     for v in real:
+        bysig[v["sig"]] = bysig.get(v["sig"], 0) + 1
+    for sg in sorted(bysig):
+        lines.append(f"  unlisted-signature {sg} x{bysig[sg]}")
+    seen_sigs = set()
+    real_sorted = []
+    for v in real:   # one replay per signature first
+        if v["sig"] not in seen_sigs:
+            seen_sigs.add(v["sig"])
+            real_sorted.append(v)
+    real_sorted += [v for v in real if v not in real_sorted][:5]
+    for v in real_sorted:
         nrep += 1
         rp = os.path.join(HOME, "replays", f"{prop}-{tier}-{seed}-{nrep}.json")
         with open(rp, "w") as f:
             json.dump({"property": prop, "tier": tier, "seed": seed, "sig": v["sig"], "msg": v["msg"], "witness": v["witness"]}, f, indent=1, default=repr)
         lines.append(f"VIOLATION property={prop} replay={rp}")
         lines.append(f"  sig={v['sig']} :: {v['msg'][:400]}")
-        if nrep >= 25:
+        if nrep >= 40:
             break
     for r in inconclusive:
         lines.append(f"INCONCLUSIVE property={prop} reason={r}")
